@@ -66,6 +66,9 @@ class Runner:
         from vlib.props import c01
         s = self.pool[k % len(self.pool)]
         p = self.params[j % len(self.params)]
+        from vlib.gen import messy
+        if messy.too_skewed(s):
+            return "skip"
         try:
             if self.kind == "sbc":
                 rarg, rad = c01.radii_for(p, s.get_atomic_numbers())
@@ -103,7 +106,7 @@ def execute(log):
 
 
 def _worker(args):
-    kind, seed, n_examples = args
+    kind, seed, n_examples, current_path = args
     try:
         bootstrap.setup()
         from hypothesis import HealthCheck, Verbosity, seed as hseed, settings, strategies as st
@@ -132,6 +135,8 @@ def _worker(args):
             def call(self, k, j):
                 self.log["steps"].append([k, j])
                 counts["calls"] += 1
+                with open(current_path, "w") as f:      # what is being executed: survives the death of this process
+                    json.dump(self.log, f)
                 msg = self.runner.step(k, j)
                 if msg:
                     LAST["log"] = json.loads(json.dumps(self.log))
@@ -149,22 +154,42 @@ def _worker(args):
 
 
 def campaign(pid, kind, seed, n_examples_per_worker, workers=16):
-    import multiprocessing as mp
-    ctx = mp.get_context("spawn")
-    with ctx.Pool(workers) as pool:
-        res = pool.map(_worker, [(kind, seed * 7919 + k, n_examples_per_worker) for k in range(workers)])
-    errs = [r["error"] for r in res if not r["ok"]]
+    from vlib import procpool
+    work = os.path.join(bootstrap.VERIF, "work", pid + "_statemachine")
+    os.makedirs(work, exist_ok=True)
+    cur = [os.path.join(work, "current_%s_%d_%d.json" % (kind, seed, k)) for k in range(workers)]
+    for c in cur:
+        if os.path.exists(c):
+            os.remove(c)
+    res = procpool.run_all(_worker, [(kind, seed * 7919 + k, n_examples_per_worker, cur[k]) for k in range(workers)], workers=workers)
+    errs = [r["error"] for r in res if not r["ok"] and "error" in r]
     if errs:
         raise bootstrap.HarnessError("state machine worker failed:\n" + errs[0])
     failures = []
+    d = os.path.join(bootstrap.VERIF, "replays", pid)
+    for k, r in enumerate(res):
+        if not r["ok"] and ("died" in r or "timeout" in r):
+            # the process executing the history ended without an answer (killed by a signal / the memory limit): the call did
+            # not return normally; the history it was executing is the replay
+            log = json.load(open(cur[k])) if os.path.exists(cur[k]) else None
+            if log is None:
+                raise bootstrap.HarnessError("state machine worker %d ended (%s) before executing any step" % (k, r))
+            os.makedirs(d, exist_ok=True)
+            path = os.path.join(d, "statemachine_%s_%d_died_%d.json" % (kind, seed, k))
+            what = "worker process ended with exit code %s while executing this history (last step %s)" % (r.get("died", "timeout"), None if not log else log["steps"][-1:])
+            with open(path, "w") as f:
+                json.dump({"property": pid, "clause": "returns-normally", "statemachine_obj": log, "observed": what}, f, indent=1)
+            if not any(x["key"] == "statemachine:process-died" for x in failures):
+                failures.append({"key": "statemachine:process-died", "clause": "returns-normally", "msg": what, "path": path})
     for r in res:
-        if r["fail"] and r["fail"]["log"] is not None and not failures:
-            d = os.path.join(bootstrap.VERIF, "replays", pid)
+        if r.get("ok") and r["fail"] and r["fail"]["log"] is not None and not any(x["key"].endswith("function-of-arguments-only") for x in failures):
             os.makedirs(d, exist_ok=True)
             path = os.path.join(d, "statemachine_%s_%d.json" % (kind, seed))
             with open(path, "w") as f:
                 json.dump({"property": pid, "clause": "function-of-arguments-only", "statemachine_obj": r["fail"]["log"], "observed": r["fail"]["msg"]}, f, indent=1)
             failures.append({"key": "statemachine:function-of-arguments-only", "clause": "function-of-arguments-only", "msg": r["fail"]["msg"], "path": path})
-    cov = {"statemachine_runs": n_examples_per_worker * workers, "statemachine_calls_checked": sum(r["calls"] for r in res),
+    good = [r for r in res if r.get("ok")]
+    cov = {"statemachine_runs": n_examples_per_worker * workers, "statemachine_calls_checked": sum(r["calls"] for r in good),
+           "statemachine_workers_died": len(res) - len(good),
            "statemachine_rules": ["call(shared %s object, structure k, parameter set j) vs fresh object" % ("SBC" if kind == "sbc" else "Classifier")]}
     return failures, cov
